@@ -263,6 +263,22 @@ func init() {
 			in.fail("strings.Index on symbolic strings")
 			return nil
 		},
+		// number of occurrences of one byte (strings.Count / SplitSeq / genSplit reach it for one-byte separators)
+		"internal/bytealg.CountString": func(in *Interp, fn *ssa.Function, a []Value) Value {
+			x, y := a[0].(*Str), a[1].(*sym.Term)
+			st := in.St
+			if x.kind == sConc && y.IsConst() {
+				return st.Int(int64(strings.Count(x.conc, string([]byte{byte(y.I)}))))
+			}
+			v := in.toView(x)
+			n := in.needMax(v, "bytealg.CountString")
+			total := st.Int(0)
+			for i := 0; i < n; i++ {
+				ii := st.Int(int64(i))
+				total = st.Add(total, st.Ite(st.And(st.Lt(ii, v.length), st.Eq(v.at(ii), y)), st.Int(1), st.Int(0)))
+			}
+			return total
+		},
 		"strings.IndexByte": func(in *Interp, fn *ssa.Function, a []Value) Value {
 			x, y := a[0].(*Str), a[1].(*sym.Term)
 			if x.kind == sConc && y.IsConst() {
@@ -1227,6 +1243,8 @@ type symReader struct{ s *Str }
 type symScanner struct {
 	lines []*Str
 	idx   int
+	limit int // maximum token size (bufio.MaxScanTokenSize unless Buffer was called)
+	limitT *sym.Term // symbolic maximum given to Buffer (nil if concrete)
 }
 
 func registerScannerIntrinsics() {
@@ -1246,12 +1264,25 @@ func registerScannerIntrinsics() {
 		if r == nil {
 			in.fail("bufio.NewScanner over an unmodelled reader")
 		}
-		in.stubs["bufio.Scanner over strings.Reader (ScanLines: split at \\n, final line without newline kept, one trailing \\r dropped; 64KiB token limit not modelled)"] = true
-		return &HostV{reflect.ValueOf(&symScanner{lines: in.scanLines(r.s)})}
+		in.stubs["bufio.Scanner over strings.Reader (ScanLines: split at \\n, final line without newline kept, one trailing \\r dropped; a concrete line of 64 KiB or more ends the scan; symbolic contents are far below that size)"] = true
+		return &HostV{reflect.ValueOf(&symScanner{lines: in.scanLines(r.s), limit: 64 * 1024})}
 	}
 	intrinsics["(*bufio.Scanner).Scan"] = func(in *Interp, fn *ssa.Function, a []Value) Value {
 		sc := a[0].(*HostV).rv.Interface().(*symScanner)
 		if sc.idx < len(sc.lines) {
+			// a (concrete) line that does not fit the scanner's buffer ends the scan (ErrTooLong)
+			l := sc.lines[sc.idx]
+			tooLong := false
+			if sc.limitT != nil {
+				tooLong = !in.branch(in.St.Lt(in.strLen(l), sc.limitT), "line fits the scanner's buffer")
+			} else if l.kind == sConc {
+				tooLong = len(l.conc) >= sc.limit
+			}
+			if tooLong {
+				sc.lines = sc.lines[:sc.idx]
+				sc.idx = len(sc.lines) + 1
+				return in.St.False
+			}
 			sc.idx++
 			return in.St.True
 		}
@@ -1264,6 +1295,19 @@ func registerScannerIntrinsics() {
 			return sc.lines[sc.idx-1]
 		}
 		return concStr("")
+	}
+	intrinsics["(*bufio.Scanner).Buffer"] = func(in *Interp, fn *ssa.Function, a []Value) Value {
+		sc := a[0].(*HostV).rv.Interface().(*symScanner)
+		mx, ok := a[2].(*sym.Term)
+		if !ok {
+			in.fail("bufio.Scanner.Buffer maximum is %T", a[2])
+		}
+		if mx.IsConst() {
+			sc.limit, sc.limitT = int(mx.I), nil
+		} else {
+			sc.limitT = mx
+		}
+		return nil
 	}
 	intrinsics["(*bufio.Scanner).Err"] = func(in *Interp, fn *ssa.Function, a []Value) Value { return &IfaceV{} }
 }
